@@ -102,7 +102,9 @@ class Ldm:
             for j in range(i):
                 I.assumptions.append(self.keys[i] > self.keys[j])                  # distinct, insertion (= id) order
         self.store = SDict([(self.present[i], self.keys[i], self.recs[i].d, False) for i in range(nrec)])
-        self.db = Obj(DictionaryDataBase, dict(database=self.store, _lock=threading.RLock(), _next_id=self.next_id))
+        dbf = dict(vars(DictionaryDataBase()))          # every field as the constructor leaves it (a tree may add some), then the symbolic state
+        dbf.update(database=self.store, _lock=threading.RLock(), _next_id=self.next_id)
+        self.db = Obj(DictionaryDataBase, dbf)
         from unittest import mock
         area = LC.Location.initializer()
         mcls = LDMMaintenanceReactive if reactive else LDMMaintenance
